@@ -14,3 +14,4 @@ INVARIANT EmptyIsIdentity
 INVARIANT ResultTokensAccounted
 INVARIANT UntouchedKept
 INVARIANT ConsumingAgreesOnTrees
+INVARIANT GroupIsSequential
